@@ -846,13 +846,17 @@ def run(tier="quick"):
         res["implementation_anomalies"] = anomalies[:20]
         res["implementation_anomaly_count"] = len(anomalies)
 
-        # the models, inside Coq
-        built, log, _ = coqbuild.make(VOS)
-        missing = [t for t in VOS if not built.get(t)]
+        # the models, inside Coq (under the lock of the proof sessions: another check may be regenerating coq/Gen and rebuilding)
+        with C.Lock("coq-session"):
+            built, log, _ = coqbuild.make(VOS)
+            missing = [t for t in VOS if not built.get(t)]
+            if missing:   # once more: the project file may have been rewritten by a check that started before this one
+                built, log, _ = coqbuild.make(VOS)
+                missing = [t for t in VOS if not built.get(t)]
+            zs, err, secs = (None, "", 0.0) if missing else run_coq(cases)
         if missing:
             res["harness_problems"].append("not built: %s\n%s" % (missing, log[-1500:]))
             return done()
-        zs, err, secs = run_coq(cases)
         res["coq_eval_s"] = round(secs, 1)
         if zs is None:
             res["harness_problems"].append("the models could not be evaluated by coqc: " + err)
